@@ -64,6 +64,9 @@ type Sim struct {
 	// PassThrough lists substrings of function names; a goroutine with such a frame on its
 	// stack is never parked (it holds an in-memory mutex others may need).
 	PassThrough []string
+	// RootTag names what the root goroutine is doing (e.g. booting node n2); goroutines it starts
+	// get it as the parent part of their label.
+	RootTag string
 	// HeldProbes report whether an in-memory mutex that spans seam calls is currently held. Only
 	// one task runs at a time, so "held" at a seam means held by the caller: it must not park
 	// (a goroutine blocking on that sync.Mutex would not be durably blocked and the bubble
@@ -184,6 +187,9 @@ func (s *Sim) deriveLabel(g int64, site string) string {
 	if !ok {
 		if pg == s.rootG {
 			parent = "root"
+			if s.RootTag != "" {
+				parent = s.RootTag
+			}
 		} else {
 			parent = "?"
 		}
